@@ -1036,7 +1036,7 @@ def run(ctx):
                     "double / single / no quotes, white space, references, &nbsp;, <br>) the body text tokenises to its "
                     "tags and runs (C01_sami_text_tokens) and the string-level reader returns exactly the denoted captions "
                     "of every language (C01_sami_string_exact)"],
-        "definitional_or_spec_internal": ["C01_vtt_shift (identity between two spec functions)",
+        "definitional_or_spec_internal": ["C01_vtt_shift_unfold (identity between two spec functions)",
                                           "C01_dfxp_blank_paragraph_ignored, C01_dfxp_missing_times_refused (unfold the "
                                           "model)", "C01_dfxp_long_fraction_refuted (history: the pre-fix variant)",
                                           "C01_dfxp_div_exact, C01_vtt_validation_transparent (liftings / corollaries)"],
